@@ -71,6 +71,7 @@ func (l *Lexer) peekChar() rune {
 
 // NextToken builds the next token of the Poryscript file
 func (l *Lexer) NextToken() token.Token {
+	verifTick()
 	var tok token.Token
 
 	// Return the next queued token, if there is one.
